@@ -151,7 +151,7 @@ var c01QuickCfgs = []c01Cfg{
 	{c01Side{Mws: 1}, c01Side{Legacy: true, Posts: 2}},
 }
 
-var c01ErrCodes = []int32{78, 1, 2, -1, -6, -7, 127, 128, 255, 256, 32767, 65536, 2147483647, -2147483648, 10000}
+var c01ErrCodes = []int32{78, 1, 2, -1, -6, -7, 127, 128, -128, -129, 255, 256, 32767, 32768, -32768, -32769, 65535, 65536, 2147483647, 2147483646, -2147483648, -2147483647, 10000}
 
 func c01RandCall(rng *rand.Rand, fn string) c01Call {
 	c := c01Call{Fn: fn, Seed: rng.Int63()}
@@ -229,6 +229,14 @@ func c01Gen(tier string, rng *rand.Rand) []c01Case {
 				n.RCtx = rng.Intn(4)
 			}
 			one(n)
+		}
+		// a tars.Error whose code is 0, the protocol's success marker (known findings e2e/error-code-zero/...)
+		if ci == 0 || ci == 3 || tier == "thorough" {
+			for _, fn := range []string{"ping", "note", "fInt", "outsOnly", "fItem"} {
+				z := c01RandCall(rng, fn)
+				z.ErrKind, z.ErrCode, z.ErrMsg, z.OneWay = 1, 0, B("failed with code zero"), false
+				one(z)
+			}
 		}
 		// out variables that already hold values
 		for k := 0; k < 3*per; k++ {
